@@ -23,6 +23,9 @@ def msg(spec, with_time):
         m = Message(message_type=MT.TIME_SIGNATURE, channel=spec[1], numerator=spec[2], denominator=spec[3])
     elif kind == "ks":
         m = Message(message_type=MT.KEY_SIGNATURE, channel=spec[1], key=Key(spec[2]))
+    elif kind == "cap":
+        # the INTERNAL end/bar marker that detokenise itself adds through add_absolute_message (absolute view only)
+        m = Message(message_type=MT.INTERNAL, channel=spec[1])
     else:
         raise ValueError(spec)
     if with_time:
@@ -163,7 +166,8 @@ def _msg_abs():
         st.tuples(st.just("off"), _CH, _P, t),
         st.tuples(st.just("off"), _CH, _P, t),
         st.tuples(st.just("ts"), _CH, st.integers(2, 5), st.just(4), t),
-        st.tuples(st.just("ks"), _CH, st.sampled_from(["C", "Db", "G"]), t)).map(list)
+        st.tuples(st.just("ks"), _CH, st.sampled_from(["C", "Db", "G"]), t),
+        st.tuples(st.just("cap"), _CH, st.one_of(t, st.integers(90, 200)))).map(list)
 
 
 def _msg_rel():
